@@ -31,18 +31,19 @@ Proof. exact json_report_rt. Qed.
 Print Assumptions C09_json_tree_roundtrip.
 
 (* ------------------------------------------------------------------ XML: partial (xml_safe reports only) *)
-(* xml_safe r (Model/CodecFile.v): every string written as element text is non-empty, has no CR and only XML 1.0 Chars;
-   every string written as attribute value has only XML 1.0 Chars; status / status_details / link name are not "" ;
-   report, suites, results and steps have a start time; unique_keys r.
+(* xml_safe r (Model/CodecFile.v): every string written as element text has no CR and only XML 1.0 Chars; every string written
+   as attribute value has only XML 1.0 Chars; check details and status are not "" ; report, suites, results and steps have a
+   start time; unique_keys r.
    Missing with respect to the full statement: exactly the C09_xml_refuted_* classes below. *)
 Theorem C09_xml_roundtrip_partial : forall tc, codec_ok tc -> codec_xml_ok tc -> forall now r, xml_safe r ->
   save_then_load tc BXml now r = Ok (with_saving (Some now) r).
 Proof. intros tc H1 H2 now r [Hs Hu]. apply xml_file_rt; assumption. Qed.
 Print Assumptions C09_xml_roundtrip_partial.
 
-Theorem C09_xml_tree_roundtrip_partial : forall tc, codec_ok tc -> forall now r, xml_safe r ->
-  xml_load_report tc (xml_save_report tc now r) = Ok (with_saving (Some now) r).
-Proof. intros tc H1 now r [Hs Hu]. apply xml_report_rt; assumption. Qed.
+(* the same at tree level: _unserialize_report applied to what writing and parsing the tree of serialize_report_as_xml_tree gives *)
+Theorem C09_xml_tree_roundtrip_partial : forall tc, codec_ok tc -> codec_xml_ok tc -> forall now r, xml_safe r ->
+  bind (xml_norm (xml_save_report tc now r)) (xml_load_report tc) = Ok (with_saving (Some now) r).
+Proof. intros tc H1 H2 now r [Hs Hu]. apply xml_tree_rt; assumption. Qed.
 Print Assumptions C09_xml_tree_roundtrip_partial.
 
 Theorem C09_backends_agree : forall tc, codec_ok tc -> codec_xml_ok tc -> codec_json_ok tc -> forall now r,
@@ -120,68 +121,22 @@ Proof.
 Qed.
 Print Assumptions C09_json_roundtrip_refuted.
 
-(* class "empty": "" written as element text comes back as None; a mandatory field is then outside the normal form ... *)
-Theorem C09_xml_refuted_empty_log_message :
-  let r := wit sa sa sa sa sa (Some sa) (Some s_passed) (Some sa) [] sa sa (Some sa) (Some 2%Z) in
-  unique_keys r /\ X r = Err NotNormalForm.
-Proof. refute_err. Qed.
-Print Assumptions C09_xml_refuted_empty_log_message.
-Theorem C09_xml_refuted_empty_attachment_filename :
-  let r := wit sa sa sa sa sa (Some sa) (Some s_passed) (Some sa) sa [] sa (Some sa) (Some 2%Z) in
-  unique_keys r /\ X r = Err NotNormalForm.
-Proof. refute_err. Qed.
-Print Assumptions C09_xml_refuted_empty_attachment_filename.
-Theorem C09_xml_refuted_empty_url :
-  let r := wit sa sa sa sa sa (Some sa) (Some s_passed) (Some sa) sa sa [] (Some sa) (Some 2%Z) in
-  unique_keys r /\ X r = Err NotNormalForm.
-Proof. refute_err. Qed.
-Print Assumptions C09_xml_refuted_empty_url.
-Theorem C09_xml_refuted_empty_title :
-  let r := wit [] sa sa sa sa (Some sa) (Some s_passed) (Some sa) sa sa sa (Some sa) (Some 2%Z) in
-  unique_keys r /\ X r = Err NotNormalForm.
-Proof. refute_err. Qed.
-Print Assumptions C09_xml_refuted_empty_title.
-Theorem C09_xml_refuted_empty_info_value :
-  let r := wit sa [] sa sa sa (Some sa) (Some s_passed) (Some sa) sa sa sa (Some sa) (Some 2%Z) in
-  unique_keys r /\ X r = Err NotNormalForm.
-Proof. refute_err. Qed.
-Print Assumptions C09_xml_refuted_empty_info_value.
-Theorem C09_xml_refuted_empty_tag :
-  let r := wit sa sa [] sa sa (Some sa) (Some s_passed) (Some sa) sa sa sa (Some sa) (Some 2%Z) in
-  unique_keys r /\ X r = Err NotNormalForm.
-Proof. refute_err. Qed.
-Print Assumptions C09_xml_refuted_empty_tag.
-Theorem C09_xml_refuted_empty_property_value :
-  let r := wit sa sa sa [] sa (Some sa) (Some s_passed) (Some sa) sa sa sa (Some sa) (Some 2%Z) in
-  unique_keys r /\ X r = Err NotNormalForm.
-Proof. refute_err. Qed.
-Print Assumptions C09_xml_refuted_empty_property_value.
-Theorem C09_xml_refuted_empty_link_url :
-  let r := wit sa sa sa sa [] (Some sa) (Some s_passed) (Some sa) sa sa sa (Some sa) (Some 2%Z) in
-  unique_keys r /\ X r = Err NotNormalForm.
-Proof. refute_err. Qed.
-Print Assumptions C09_xml_refuted_empty_link_url.
-(* ... and an optional one silently becomes None (element text, or attribute written under a truthiness test) *)
+(* class "empty": "" written as element text comes back as None. For the mandatory fields (log message, attachment file name,
+   url, tag, property value, link url, title, info value) the unserializer restores "" (`text or ""`, fix F04), and "" in
+   status_details / link name is written (`is not None`, fix F04): those are inside xml_safe (C09_empty_texts_are_safe).
+   What remains: *)
+(* an optional text silently becomes None (check.details: None and "" are the same empty element), and so does a status ""
+   (written under a truthiness test; "" is not a status the framework produces) *)
 Theorem C09_xml_refuted_empty_check_details :
   let r := wit sa sa sa sa sa (Some sa) (Some s_passed) (Some sa) sa sa sa (Some []) (Some 2%Z) in
   exists r', unique_keys r /\ X r = Ok r' /\ r' <> expected r.
 Proof. refute_neq. Qed.
 Print Assumptions C09_xml_refuted_empty_check_details.
-Theorem C09_xml_refuted_empty_link_name :
-  let r := wit sa sa sa sa sa (Some []) (Some s_passed) (Some sa) sa sa sa (Some sa) (Some 2%Z) in
-  exists r', unique_keys r /\ X r = Ok r' /\ r' <> expected r.
-Proof. refute_neq. Qed.
-Print Assumptions C09_xml_refuted_empty_link_name.
 Theorem C09_xml_refuted_empty_status :
   let r := wit sa sa sa sa sa (Some sa) (Some []) (Some sa) sa sa sa (Some sa) (Some 2%Z) in
   exists r', unique_keys r /\ X r = Ok r' /\ r' <> expected r.
 Proof. refute_neq. Qed.
 Print Assumptions C09_xml_refuted_empty_status.
-Theorem C09_xml_refuted_empty_status_details :
-  let r := wit sa sa sa sa sa (Some sa) (Some s_passed) (Some []) sa sa sa (Some sa) (Some 2%Z) in
-  exists r', unique_keys r /\ X r = Ok r' /\ r' <> expected r.
-Proof. refute_neq. Qed.
-Print Assumptions C09_xml_refuted_empty_status_details.
 
 (* class "cr": a carriage return in element text comes back as a line feed ("a\rb" -> "a\nb") *)
 Theorem C09_xml_refuted_cr :
@@ -218,12 +173,17 @@ Theorem C09_xml_roundtrip_refuted :
        save_then_load tc BXml now r = Ok (with_saving (Some now) r)).
 Proof.
   intro H. destruct C09_codec_hypotheses_satisfiable as (H1 & H2 & _).
-  destruct C09_xml_refuted_empty_log_message as [Hu Hr].
+  destruct C09_xml_refuted_control_char as [Hu Hr].
   specialize (H una_codec H1 H2 0%Z _ Hu). unfold X in Hr. rewrite Hr in H. discriminate.
 Qed.
 Print Assumptions C09_xml_roundtrip_refuted.
 
 (* ------------------------------------------------------------------ non-vacuity *)
+(* every mandatory text field empty, status_details and link name "" : inside xml_safe, and both backends give the report back *)
+Definition empties := wit [] [] [] [] [] (Some []) (Some s_passed) (Some []) [] [] [] (Some sa) (Some 2%Z).
+Example C09_empty_texts_are_safe : xml_safe empties /\ X empties = Ok (expected empties) /\ J empties = Ok (expected empties).
+Proof. repeat split; vm_compute; reflexivity. Qed.
+
 (* a report with nesting, setups and teardowns, unfinished parts, markup / non-ASCII / astral characters, blanks and LF *)
 Definition rich : report :=
   let res := mkResult (Some 2%Z) None None None
